@@ -78,8 +78,8 @@ NOT_YET = "check under construction in this session; not yet registered"
 
 # kernels / methods of /repo re-translated to Lean on every run (harness/extract/py2lean.py) and proved equal to the model
 SRC = {
-    "C01": "TheFittest._replace, TheFittest._update (= Rec.update)",
-    "C02": "TheFittest._update (= Rec.update; the record never decreases); the greedy replacement block of DifferentialEvolution / jDE (= EA.merge: one mask from the old fitness decides genotype, phenotype and fitness of a slot together)",
+    "C01": "TheFittest._replace, TheFittest._update (= Rec.update), TheFittest.get (genotype, phenotype, fitness in that order), the order of one evaluation step of the base class (phenotypes, fitness, record update, then the elite into the last slot)",
+    "C02": "TheFittest._update (= Rec.update; the record never decreases); the greedy replacement block of DifferentialEvolution / jDE (= EA.merge: one mask from the old fitness decides genotype, phenotype and fitness of a slot together); the elitism step of the base class (the record's triple written into the last slot of all three arrays, after the record was updated)",
     "C03": "TheFittest._update (stagnation counter), _termitation_check (= Cfg.stop), get_remains_calls (= Cfg.remains), the method-call skeleton of fit() (stops at the first consultation at which the rule holds; one evaluation per generation; one callback per generation after the first), _get_aim (= sign * optimal_value - termination_error_value; with _termitation_check and _get_fitness: the aim rule fires exactly when the objective is within the error on the correct side, for minimisation and maximisation)",
     "C05": "_get_fitness: the sign is applied exactly once to every objective value (= Cfg.fitOf), the evaluation counter advances by their number",
     "C06": "flip_mutation, binomialGA, one_point / two_point / uniform / uniform_proportional / uniform_rank / empty crossover (random draws as explicit streams; the ARGUMENTS each passes to random_sample / random_weighted_sample are part of the statements - one cut below the string length, two DISTINCT cuts, weights = fitness / rank, one parent index per locus); GeneticAlgorithm._get_new_individ_g (the wiring of one offspring: selection on scaled fitness and ranks, crossover of the selected rows, mutation of its result) and SHAGA._get_new_individ_g (tournament of two keyed on the fitness, binomialGA with the current individual first, flip mutation)",
